@@ -39,6 +39,12 @@ def run_pairs(ctx):
         dict(mode="shift", dev="ring", field=0.6, shift=(1.0, 1.0), steps=100, warm=30),
         dict(mode="shift", dev="tee", field=0.2, current=4.0, shift=(0.4, -0.6), steps=100, warm=30),
         dict(mode="shift", dev="cross", field=0.3, current=3.0, shift=(0.1, 0.7), steps=80, warm=20, k=7),
+        # with screening: the self-consistency loop (Polyak iteration, convergence criterion) must not see the gauge either;
+        # fixed step, so the clean twins follow the same iteration path (measured: <= 2e-10 of the scale, equal iteration counts)
+        dict(mode="shift", dev="film", field=0.4, shift=(0.6, -0.4), steps=20, warm=6, k=4, screening=True, screening_tol=1e-3),
+        dict(mode="shift", dev="film", field=0.1, shift=(0.5, 0.3), steps=12, warm=0, k=4, screening=True, screening_tol=1e-4),
+        dict(mode="shift", dev="bar", field=0.3, current=3.0, shift=(0.5, 0.8), steps=20, warm=6, k=4, screening=True, screening_tol=1e-6),
+        dict(mode="translate", dev="barhole", field=0.4, current=2.0, offset=(3.0, -1.5), steps=16, warm=4, k=4, screening=True, screening_tol=1e-6),
     ]
     if not ctx.quick:
         for n in range(40):
@@ -51,20 +57,32 @@ def run_pairs(ctx):
                 a.update(mode="translate", offset=(rnd.randint(-64, 64) / 8, rnd.randint(-64, 64) / 8))
             else:
                 a.update(mode="shift", shift=(round(rnd.uniform(-1, 1), 3), round(rnd.uniform(-1, 1), 3)))
+            if n % 3 == 0:
+                # (not exactly at rest: see REST_PAIR)
+                a.update(screening=True, screening_tol=rnd.choice([1e-3, 1e-4, 1e-6]), steps=rnd.choice([12, 24, 40]), warm=rnd.choice([0, 4, 8]), k=4,
+                         field=max(a["field"], 0.05))
             pairs.append(a)
     return pairs
 
 
+# Known deviation of the unchanged tree (run only when listed as an open known finding, see the report): a film AT REST
+# (zero field, psi = 1) with screening converges at once in the gauge A = 0, but in the gauge A = c, psi = exp(i c.r) the
+# currents are rounding noise, the RELATIVE error |dA|/|A_induced| of the screening loop is noise/noise and the run raises
+# "Screening calculation failed to converge".  Violation key: "C04/runs:shift/film/B=0.0/I=-/c=(0.5, 0.3)/screening tol=0.001:outcome..."
+REST_PAIR = dict(mode="shift", dev="film", field=0.0, shift=(0.5, 0.3), steps=12, warm=0, k=4, screening=True, screening_tol=1e-3)
+
+
 def describe(a):
-    return "%s/%s/B=%s/I=%s/%s" % (a["mode"], a["dev"], a["field"], a.get("current", "-"),
-                                  ("offset=%s" % (a["offset"],)) if a["mode"] == "translate" else ("c=%s" % (a["shift"],)))
+    return "%s/%s/B=%s/I=%s/%s%s" % (a["mode"], a["dev"], a["field"], a.get("current", "-"),
+                                    ("offset=%s" % (a["offset"],)) if a["mode"] == "translate" else ("c=%s" % (a["shift"],)),
+                                    "/screening tol=%g" % a["screening_tol"] if a.get("screening") else "")
 
 
 def run(ctx):
     b = bounds(ctx)
     ctx.cov["bounds"] = {"FVOps": dict(b, meshes=fvops.MESH_NAMES, gauge="single-site generators chi_s = c pi/2, c in 1..3, every site s",
                                        links="first MaxFree links over 0..3, the others (e+mi)%4"),
-                         "runs": "<= 200 fixed steps of 2^-6, no screening, devices of ~110 sites"}
+                         "runs": "<= 200 fixed steps of 2^-6, devices of ~110 sites; with screening (tolerance 1e-3..1e-6): <= 48 steps"}
     # 1. the design
     r = ctx.model_check("FVOps", fvops.model_cfg(b["MeshIds"], b["Patterns"], b["MaxFree"], True, fvops.INV_MODEL_C04, emit="gauge"),
                         name="FVOps[C04]", timeout=3000)
@@ -96,6 +114,8 @@ def run(ctx):
         jobs.append(("call", dict(module="harness.fvops", func="float_trace", args=dict(m, nA=3))))
     nfloat = len(jobs) - nexact
     pairs = run_pairs(ctx)
+    if any(f.get("status") == "open" and "B=0.0" in f.get("key", "") and "screening" in f.get("key", "") for f in ctx.findings):
+        pairs.append(REST_PAIR)
     for a in pairs:
         jobs.append(("call", dict(module="harness.fvops", func="gauge_run_pair", args=a)))
     control = dict(mode="shift", dev="bar", field=0.4, current=3.0, shift=(0.25, 0.4), steps=40, warm=30, break_seed=True)
@@ -127,13 +147,19 @@ def run(ctx):
     tw = []
     for a, rr in zip(pairs, runs):
         tw.append({"tol": TOL, "minruns": 2, "ev": rr["ev"], "label": describe(a)})
+        if a.get("screening"):
+            if not rr["ev_exact"]:
+                raise core.MachineryFailure(f"C04: no screening_iterations record for {describe(a)}")
+            tw.append({"tol": 0, "minruns": 2, "ev": rr["ev_exact"], "label": describe(a) + "/iteration counts"})
         inf = rr["info"]
         nontrivial = inf["psi_moved"] > 1e-3 and inf["max_supercurrent"] > 1e-3 and inf["frames"][0] >= 3
         ctx.note_case(("runs", describe(a)), nontrivial)
         ctx.sample({"run_pair": describe(a), "info": {k: inf[k] for k in ("sites", "frames", "steps", "worst_relative_difference", "psi_moved",
                                                                         "max_phase_difference_between_gauges")}}, limit=5)
     ctx.cov["run_pairs"] = [dict(pair=describe(a), worst_relative_difference=max(rr["info"]["worst_relative_difference"].values()),
-                                 psi_moved=rr["info"]["psi_moved"]) for a, rr in zip(pairs, runs)]
+                                 psi_moved=rr["info"]["psi_moved"],
+                                 **({"screening_iterations": rr["info"]["screening_iterations"]["A"]} if a.get("screening") else {}))
+                            for a, rr in zip(pairs, runs)]
     acct = fvops.validate_twin(ctx, tw, "C04/runs")
     # canaries: one observation off by more than the tolerance; and a pair that is NOT gauge equivalent (no phase factor in the seed)
     ctl_trace = {"tol": TOL, "minruns": 2, "ev": ctl["ev"]}
@@ -156,7 +182,8 @@ def run(ctx):
     ctx.assume("run level: gauge-equivalent initial states are produced by multiplying the recorded order parameter of a warm-up run by "
                "exp(i chi), chi = c.r with c the difference of the two dimensionless vector potentials as evaluated by TDGLSolver itself")
     ctx.assume("run level compares |psi|, supercurrent, normal current and mu_i - mu_0 quantised at 1e-6 of their scale with tolerance 5 quanta; "
-               "measured differences are ~1e-11 of the scale; fixed time step, no screening")
+               "measured differences are ~1e-11 of the scale (<= 2e-10 with screening); fixed time step; with screening the induced vector "
+               "potential is compared as well and the per-step screening_iterations records must be equal")
 
 
 def replay(ctx, path):
